@@ -72,8 +72,11 @@ def generate(seed, tier):
         est = 30 + ne * (6 + nb * 10)
         return {"kind": "stop_async", "addr": ["ordinal", r.randrange(0, est)]}
 
-    if m < 0.28:
+    if m < 0.24:
         pass
+    elif m < 0.28:
+        # user code fails in the middle of the run; the run after it must be a normal one
+        faults.append({"kind": "raise_cb", "event": r.randrange(0, total), "cb": r.randrange(0, n_wit)})
     elif m < 0.58:
         faults.append(cb_fault())
     elif m < 0.88:
@@ -97,7 +100,9 @@ def generate(seed, tier):
             "jumpy_clock": r.random() < 0.5,
             "rng_mode": r.choice(["honest", "honest", "rare"]),
             # if the first run ends without a stop, training is continued on the same state
-            "continue": r.choice([None, None, None, {"span": r.randint(0, 2), "gap": r.choice([0, 0, 1])}]),
+            "continue": r.choice([None, None, None, {"span": r.randint(0, 2), "gap": r.choice([0, 0, 1]), "replace": r.choice([[], [], [r.randrange(0, n_wit)]])}]),
+            # how the caller hands over its callbacks (a CallbackList is re-used, edited in place, by a continued run)
+            "container": r.choice(["list", "list", "tuple", "CallbackList", "CallbackList"]),
         },
         "faults": faults,
     }
@@ -138,7 +143,14 @@ def execute(plan):
                 faults=plan.get("faults", ()),
                 scheduler=sched,
                 scheduler_args=sargs,
+                container=cfg.get("container", "list"),
             )
+            aborted = False
+            if info["raised"] is not None and type(info["raised"]).__name__ == "UserAbort":
+                # user code failed inside a callback: fit lets the exception through; the state must stay usable
+                aborted = True
+                info["raised"] = None
+                run.probes["aborted_by_user_exception"] += 1
             # the request persists: a second run on the same state, started while the stop is still
             # requested, must emit nothing and change nothing
             n_first = len(run.log.entries)
@@ -159,11 +171,15 @@ def execute(plan):
                     run.require(info2["flag_after"], "P", "stop request was cleared by a second fit", second=True)
             # continuation: a second run on the same state picks up at a later starting epoch
             n_cont = None
-            if info["raised"] is None and not info["flag_after"] and not info["crashed"] and cfg.get("continue"):
+            cont = cfg.get("continue") or ({"span": 1, "gap": 0, "replace": []} if aborted else None)
+            if aborted:
+                state.stop_training = False
+            if info["raised"] is None and (aborted or not info["flag_after"]) and not info["crashed"] and cont:
                 n_cont = len(run.log.entries)
-                se2 = max(tc["epochs"], tc["starting_epoch"] - 1) + 1 + cfg["continue"]["gap"]
-                tc2 = dict(tc, starting_epoch=se2, epochs=se2 - 1 + cfg["continue"]["span"])
-                info2 = run_fit(run, state, tc2, data_in, bases, n_wit=cfg["n_wit"], flavours=cfg.get("flavours"), scheduler=sched, scheduler_args=sargs)
+                se2 = max(tc["epochs"], tc["starting_epoch"] - 1) + 1 + cont["gap"]
+                tc2 = dict(tc, starting_epoch=se2, epochs=se2 - 1 + cont["span"])
+                info2 = run_fit(run, state, tc2, data_in, bases, n_wit=cfg["n_wit"], flavours=cfg.get("flavours"), scheduler=sched, scheduler_args=sargs,
+                                container=cfg.get("container", "list"), prior=info, replace=cont.get("replace", []))
                 run.probes["continued_fit"] += 1
                 if info2["raised"] is not None:
                     run.lib_exception(info2["raised"], "continued fit")
@@ -174,9 +190,15 @@ def execute(plan):
         rng.check_global()
     if info["raised"] is not None:
         run.lib_exception(info["raised"], "fit", N=cfg["data"]["N"], type=cfg["state"]["type"])
-    items, _ = protocol.extract(run, cfg["n_wit"], upto=n_first)
+    if any(ent[0] == "ev-retired" for ent in run.log.entries):
+        run.violate("W-order", "a callback object that the caller had replaced in its list still received events of the later run")
+    if aborted:
+        # the first run ended by the user's exception in the middle of a dispatch: only the run after it is judged
+        items = []
+    else:
+        items, _ = protocol.extract(run, cfg["n_wit"], upto=n_first)
     N = cfg["data"]["N"]
-    if info["raised"] is None:
+    if info["raised"] is None and not aborted:
         protocol.judge(
             run,
             items,
